@@ -49,6 +49,18 @@ func Str(rt *rapid.T, label string, maxLen int) string {
 		sb.WriteString(seed)
 	}
 	s := sb.String()[:n]
+	// names and texts that end or begin with what looks like padding (NUL, blank, newline)
+	if x := rapid.IntRange(0, 11).Draw(rt, label+"-pad"); x < 3 {
+		pad := rapid.SampledFrom([]string{"\x00", "\x00\x00", " ", "\n", "\t "}).Draw(rt, label+"-padding")
+		if len(pad) > n {
+			pad = pad[:n]
+		}
+		if x == 0 {
+			s = pad + s[len(pad):]
+		} else {
+			s = s[:n-len(pad)] + pad
+		}
+	}
 	return s
 }
 
